@@ -29,8 +29,52 @@ def gen_schedules(n, seed, od, cfg="MiPageGen.cfg", module="MiPageGen", depth=80
         scheds.append(" ".join("%d:%d" % (t, c) for t, c in rl))
     return scheds[:n], r
 
+# guards of the step-level trace specification (StepTrace.tla); decisive for the properties that are about the delayed-free protocol
+STEP_GUARDS = {"StepContinuity", "RemoteSequence", "RemoteCas1", "DelayedPushOwn", "RemoteCas3", "CollectTakesAll", "UseDelayedShape",
+               "NeverOnlyOnAdoption", "WriteShape", "StoreNotStale", "RepushTaken", "RearmAfterDrain"}
+NO_STEPS = {"pc"}        # programs whose executions are too long to log every atomic step
+
+
+def split_steps(path):
+    """Move the step events of a trace into steps_<name> (together with the cfg / reset / ret / crash / end lines StepTrace needs);
+    the trace itself keeps everything else.  Returns the path of the step trace and the number of step events."""
+    d, b = os.path.split(path)
+    sp = os.path.join(d, "steps_" + b)
+    n = 0
+    with open(path) as f, open(path + ".api", "w") as fa, open(sp, "w") as fs:
+        for l in f:
+            if l.startswith('{"e":"step"'):
+                fs.write(l); n += 1
+            else:
+                fa.write(l)
+                if l.startswith(('{"e":"ret"', '{"e":"cfg"', '{"e":"reset"', '{"e":"crash"', '{"e":"end"')):
+                    fs.write(l)
+    os.replace(path + ".api", path)
+    return sp, n
+
+
+def split_pieces(path, tr, limit=6000):
+    pieces = []
+    with open(path) as f:
+        lines = f.readlines()
+    chunk, n, part = [], 0, 0
+    for l in lines:
+        if l.startswith('{"e":"reset"}') and n >= limit:
+            p = path.replace(".ndjson", "_p%d.ndjson" % part)
+            open(p, "w").writelines(chunk)
+            pieces.append((p, tr))
+            chunk, n, part = [], 0, part + 1
+            continue
+        chunk.append(l); n += 1
+    if chunk:
+        p = path.replace(".ndjson", "_p%d.ndjson" % part)
+        open(p, "w").writelines(chunk)
+        pieces.append((p, tr))
+    return pieces
+
+
 def run_conc(prop, tier, seed, jobs_spec, own_guards, mc, builds=("rel", "dbg"), guided_progs=("page",), nsched=(40, 400),
-             assumptions=(), extra_cov=None, crash_decisive=True, V=None, finish=True):
+             assumptions=(), extra_cov=None, crash_decisive=True, V=None, finish=True, step_guards=()):
     """jobs_spec: list of dicts {prog, strategy, runs:(quick,thorough), args:[...], env}"""
     q = 0 if tier == "quick" else 1
     V = V or vlib.Verdict(prop, tier, seed)
@@ -65,7 +109,7 @@ def run_conc(prop, tier, seed, jobs_spec, own_guards, mc, builds=("rel", "dbg"),
                 continue
             out = os.path.join(od, "t_%s_%s_%s_%d.ndjson" % (js["prog"], js["strategy"], b, k))
             cmd = [exes[b], "--out", out, "--prog", js["prog"], "--seed", str(seed * 1000003 + k * 1009), "--runs", str(js["runs"][q]),
-                   "--strategy", js["strategy"]] + list(js.get("args", []))
+                   "--strategy", js["strategy"]] + list(js.get("args", [])) + ([] if js["prog"] in NO_STEPS else ["--steps", "1"])
             traces.append((out, b, js, "%s.%s" % (js["prog"], js["strategy"])))
             jobs.append((lambda cmd=cmd, env=js.get("env"): vlib.sh(cmd, timeout=1500, env=env)))
             k += 1
@@ -74,7 +118,7 @@ def run_conc(prop, tier, seed, jobs_spec, own_guards, mc, builds=("rel", "dbg"),
             for b in builds:
                 out = os.path.join(od, "t_%s_guided_%s_%d.ndjson" % (prog, b, k))
                 cmd = [exes[b], "--out", out, "--prog", prog, "--seed", str(seed * 7919 + k), "--runs", str(len(scheds)), "--strategy", "guided",
-                       "--sched", sched_file, "--spurious", "1"]
+                       "--sched", sched_file, "--spurious", "1", "--steps", "1"]
                 traces.append((out, b, {"prog": prog, "strategy": "guided", "runs": (len(scheds), len(scheds))}, "%s.guided" % prog))
                 jobs.append((lambda cmd=cmd: vlib.sh(cmd, timeout=1500)))
                 k += 1
@@ -89,24 +133,39 @@ def run_conc(prop, tier, seed, jobs_spec, own_guards, mc, builds=("rel", "dbg"),
     vlib.check_complete(V, prop, res, traces, what=lambda t: t[3])
     log("  ran %d scheduled executions (%d driver processes) in %.1fs" % (nexec, len(jobs), time.time() - t0))
 
-    # split long traces so that TLC jobs stay balanced (split at reset lines)
-    pieces = []
+    # the step events go to their own trace (StepTrace.tla), everything else to ApiTrace; long traces are split at reset lines so
+    # that the TLC jobs stay balanced
+    pieces, spieces, nstep_events = [], [], 0
     for tr in traces:
-        with open(tr[0]) as f:
-            lines = f.readlines()
-        chunk, n, part = [], 0, 0
-        for l in lines:
-            if l.startswith('{"e":"reset"}') and n >= 6000:
-                p = tr[0].replace(".ndjson", "_p%d.ndjson" % part)
-                open(p, "w").writelines(chunk)
-                pieces.append((p, tr))
-                chunk, n, part = [], 0, part + 1
+        sp, ns = split_steps(tr[0])
+        nstep_events += ns
+        if ns > 0:
+            spieces += split_pieces(sp, tr, limit=20000)
+        pieces += split_pieces(tr[0], tr)
+    t0 = time.time()
+    stres = vlib.parallel([(lambda p=p: vlib.tlc_tv(p, module="StepTrace", cfg="StepTrace.cfg", timeout=2400, xmx="3g")) for p, _ in spieces], nproc=12)
+    log("  TLC validated %d step-trace pieces (%d atomic steps) in %.1fs" % (len(spieces), nstep_events, time.time() - t0))
+    sother = {}
+    for (p, tr), r in zip(spieces, stres):
+        if r["status"] in ("error", "timeout"):
+            raise vlib.InfraError("TLC step-trace validation %s: %s" % (r["status"], r["out"][-3000:]))
+        seen = set()
+        fails = list(r["guardfails"])
+        if r["status"] == "rejected" and not fails:
+            fails = [("Unexplained", (r["consumed"] or 0) + 1, "no action explains this event")]
+        for name, line, detail in fails:
+            sig = "%s:step@%s" % (name, tr[3])
+            if sig in seen:
                 continue
-            chunk.append(l); n += 1
-        if chunk:
-            p = tr[0].replace(".ndjson", "_p%d.ndjson" % part)
-            open(p, "w").writelines(chunk)
-            pieces.append((p, tr))
+            seen.add(sig)
+            if name in step_guards or name == "Unexplained":
+                keep = os.path.join(vlib.keepdir(prop), os.path.basename(p))
+                shutil.copyfile(p, keep)
+                V.violation(sig, "%s:%d" % (keep, line), "step-level guard %s failed (%s)" % (name, detail))
+            else:
+                sother[sig] = sother.get(sig, 0) + 1
+    for sig, n in sorted(sother.items()):
+        V.note("step-level guard (decisive for C02/C08/C09/C10) failed %d time(s): %s" % (n, sig))
     t0 = time.time()
     tvres = vlib.parallel([(lambda p=p: vlib.tlc_tv(p, timeout=2400, xmx="3g")) for p, _ in pieces], nproc=12)
     log("  TLC validated %d trace pieces in %.1fs" % (len(pieces), time.time() - t0))
@@ -148,7 +207,7 @@ def run_conc(prop, tier, seed, jobs_spec, own_guards, mc, builds=("rel", "dbg"),
            "traces_validated_against_impl": nexec, "trace_events_validated": consumed, "trace_events_total": events,
            "schedules_generated_by_tlc": len(scheds), "driver_processes": len(jobs), "builds": list(builds),
            "programs": sorted({t[2]["prog"] for t in traces}), "strategies": sorted({t[2]["strategy"] for t in traces}),
-           "decisive_guards": sorted(own_guards), "samples": (scheds[:2] + vlib.sample_lines(traces[0][0], 3) + steps[:2]), "exhaustive": False}
+           "decisive_guards": sorted(own_guards), "atomic_steps_validated": nstep_events, "step_guards": sorted(step_guards), "samples": (scheds[:2] + vlib.sample_lines(traces[0][0], 3) + steps[:2]), "exhaustive": False}
     if extra_cov:
         cov.update(extra_cov)
     if not finish:
